@@ -179,8 +179,9 @@ type ModShard struct {
 }
 
 func (m *ModShard) FindForKey(key interface{}) (int, error) {
-	h := hack.Abs(NumValue(key))
-	return int(h % int64(m.ShardNum)), nil
+	// uint64: the magnitude of math.MinInt64 does not fit an int64
+	h := uint64(hack.Abs(NumValue(key)))
+	return int(h % uint64(m.ShardNum)), nil
 }
 
 type NumRangeShard struct {
